@@ -186,6 +186,30 @@ def limit_stims(seed, tier):
     return out
 
 
+def compressed_limit_stims(seed, tier):
+    """Compression x decoding limit: the limit applies to the on-the-wire payload, so a run of one byte that is far longer than the
+    receiver's limit but compresses to a few dozen bytes arrives intact (C02: same messages; C06: accepted iff wire length within limit)."""
+    rnd = random.Random(seed + 66)
+    out = []
+    for enc in ('gzip', 'deflate', 'zstd'):
+        for L in (64, 2048):
+            for shape in ('unary', 'cstream', 'sstream', 'bidi'):
+                for side in ('client', 'server', 'both'):
+                    def msgs(k):
+                        return [[rnd.randrange(256)] * rnd.choice([3 * L, L + 1, 5 * L]) for _ in range(k)]
+                    nreq = 1 if shape in ('unary', 'sstream') else rnd.randint(1, 3)
+                    nresp = 1 if shape in ('unary', 'cstream') else rnd.randint(1, 3)
+                    h2 = rnd.random() < 0.4
+                    st = {'mode': 'client', 'class': 'compressed_over_limit_' + side, 'transport': 'h2' if h2 else 'inproc', 'wire_small': True,
+                          'shim': {'cap': 65536, 'rq': rnd.choice([3, 64, 65536]), 'wq': rnd.choice([5, 65536]), 'pend': 0}, 'shape': shape,
+                          'server': {'send': [enc], 'accept': [enc], 'max_dec': L if side in ('server', 'both') else -1, 'max_enc': -1},
+                          'client': {'send': enc, 'accept': [enc], 'max_dec': L if side in ('client', 'both') else -1, 'max_enc': -1, 'clone': rnd.random() < 0.3},
+                          'req': {'meta': [], 'msgs': msgs(nreq)},
+                          'script': {'init_meta': [], 'msgs': msgs(nresp), 'end': {'ok': True}, 'fail_before': False, 'no_compress': False}}
+                    out.append(st)
+    return out
+
+
 def check(prop, tier, seed):
     t0 = time.time()
     core.build_harness()
@@ -200,10 +224,11 @@ def check(prop, tier, seed):
         fams.append(('client_negotiation', client_negotiation_stims(seed, tier)))
     if prop == 'C02':
         fams.append(('response_table', mock_table_stims(seed, tier, mc)))
+        fams.append(('compressed_limits', compressed_limit_stims(seed, tier)))
     if prop == 'C08':
         fams.append(('calls2', simple.gen('call', seed + 77, tier, tag)))
     if prop == 'C06':
-        fams = [('call_limits', limit_stims(seed, tier))]
+        fams = [('call_limits', limit_stims(seed, tier)), ('compressed_limits', compressed_limit_stims(seed, tier))]
     if prop == 'C05':
         # the frame-level clauses of C05 (flag without negotiated encoding => INTERNAL) on the decoder itself,
         # driven by the behaviours of the decoder Mechanism model (includes empty and short flagged frames)
